@@ -101,18 +101,18 @@ for pid,names in WANT.items():
         args=' '.join(x for x,ty,impl in bn if not impl)
         rw=', '.join(rws)
         if not inv and 'translateRange' in used:
-            out.append(f"theorem {n}_src{binders.rstrip()} :{stmt2.rstrip()} := by\n  rw [{', '.join(rws)}]; exact {n} {args}")
+            out.append(f"maybe theorem {n}_src{binders.rstrip()} :{stmt2.rstrip()} := by\n  rw [{', '.join(rws)}]; exact {n} {args}")
             continue
         if not inv:
             # no invariant among the hypotheses (documented panics of `swap`): the tie on all states
             lemma = "gen_swap_panics_i" if n.endswith("_i") else "gen_swap_panics_j"
-            out.append(f"theorem {n}_src{binders.rstrip()} :{stmt2.rstrip()} :=\n  {lemma} {args}")
+            out.append(f"maybe theorem {n}_src{binders.rstrip()} :{stmt2.rstrip()} :=\n  {lemma} {args}")
             continue
         alts=[f"  | (rw [{rw}]; exact {n} {args})"]
         for D in ("RefinesL","Refines","Frames"):
             if re.search(r"\b%s\b"%D, stmt2):
                 alts.append(f"  | (have h0 := {n} {args}; unfold {D} at h0 ⊢; rw [{rw}]; exact h0)")
-        out.append(f"theorem {n}_src{binders.rstrip()} :{stmt2.rstrip()} := by\n  first\n"+"\n".join(alts))
+        out.append(f"maybe theorem {n}_src{binders.rstrip()} :{stmt2.rstrip()} := by\n  first\n"+"\n".join(alts))
     imports="".join(f"import CircBuf.Lemmas.Tie.{g}\n" for g in sorted(groups))
     os.makedirs(P+'Src',exist_ok=True)
     open(P+f'Src/{pid}.lean','w').write(imports+f"import CircBuf.Lemmas.NonDefect\nimport CircBuf.Props.{pid}\n"+f"""/-!
